@@ -1,11 +1,10 @@
-import StorageModel.Driver.Common
-/- model driver for C08: `run spec` reads case lines on stdin and prints one output line per case
-   (spec = false: the engine model's output; spec = true: the spec's verdict). -/
+import StorageModel.Driver.C07
+/- model driver for C08: same protocol, model and spec as C07 (one transaction / event model). -/
 namespace StorageModel.Driver.C08
 open StorageModel.Driver
 
-def step (_line : String) : String := "not-implemented"
-def specStep (_line : String) : String := "not-implemented"
+def step (line : String) : String := StorageModel.Driver.C07.step line
+def specStep (line : String) : String := StorageModel.Driver.C07.specStep line
 
 def run (spec : Bool) : IO Unit := forEachLine (if spec then specStep else step)
 
